@@ -551,7 +551,12 @@ def main(argv):
         if k["status"] != "successful":
             undecided.append("kani: assumed contract harness %s: %s" % (k["harness"], k["status"]))
 
-    failed_obl = len({f["obligation"] for f in real_violations}) + len({f["obligation"] for f in knownhits})
+    # Obligations listed as OPEN known findings are not part of what this run claims to discharge: they are reported
+    # on their own (KNOWN-FINDING lines, coverage.open_known_findings) and never counted as discharged.
+    n_known = len({f["obligation"] for f in knownhits})
+    n_obl_total = n_obl
+    n_obl = max(0, n_obl - n_known)
+    failed_obl = len({f["obligation"] for f in real_violations})
     discharged = max(0, n_obl - failed_obl) if not undecided else 0
     wall = time.time() - t0
     manifest_level = "proof"
@@ -581,9 +586,11 @@ def main(argv):
             "backend": "verus/z3",
             "solver_time_s": round(solver_us / 1e6, 3),
             "vacuity_check": "each contracted function re-verified with `ensures false` added and required to fail",
-            "explanation": "Obligations = per contracted function: #ensures + #loop-invariant clauses + #decreases + 1 (the implicit safety query: overflow, callee preconditions incl. unwrap/expect/panic reachability, termination). Counted by the splicer on this run; discharged = obligations minus obligations Verus reported failed. For C04 every extracted function of every unit contributes its implicit safety query.",
+            "explanation": "Obligations = per contracted function: #ensures + #loop-invariant clauses + #decreases + 1 (the implicit safety query: overflow, callee preconditions incl. unwrap/expect/panic reachability, termination). Counted by the splicer on this run; discharged = obligations minus obligations Verus reported failed. An obligation that fails and is listed as an OPEN known finding (known_findings.json) is excluded from both numbers and listed under open_known_findings (obligations_generated counts it): it is a recorded genuine defect of /repo, not something this run discharged. For C04 every extracted function of every unit contributes its implicit safety query.",
             "undecided": undecided,
             "extraction_notes": sorted(notes),
+            "obligations_generated": n_obl_total,
+            "open_known_findings": [{"obligation": f["obligation"], "what": next((k.get("what") for k in known if k["obligation"] == f["obligation"]), "")} for f in knownhits],
             "known_findings_hit": [f["obligation"] for f in knownhits],
             "kani_validation_of_assumed_contracts": kani_results,
         },
@@ -607,7 +614,7 @@ def main(argv):
             print("UNDECIDED: " + u)
         return 2
     print("%s: %d of %d obligations over %d functions in %d units discharged by verus/z3 in %.1fs%s" % (
-        pid, discharged, n_obl, n_items, len(recs), wall, (" (%d failed: known finding)" % len(knownhits)) if knownhits else ""))
+        pid, discharged, n_obl, n_items, len(recs), wall, (" (+%d failing obligation(s) recorded as open known finding)" % n_known) if knownhits else ""))
     return 0
 
 
